@@ -134,3 +134,93 @@ def run_subspace(c):
                 alpha=float(alpha), q_xbar=float(q_model(x, g, B, np.asarray(xbar))), q_xcp=float(q_model(x, g, B, xcp)),
                 gd=float(g.dot(np.asarray(xbar) - x)),
                 in_box=bool(np.all(np.asarray(xbar) >= l) and np.all(np.asarray(xbar) <= u)))
+
+
+@register("matrices")
+def run_matrices(c):
+    from lbfgsb.bfgsmats import bmv
+    n = c["n"]
+    mats, X, G = _mats(n, c["S"], c["Y"], c.get("maxcor"))
+    B = []
+    for j in range(n):
+        e = np.zeros(n)
+        e[j] = 1.0
+        B.append(mats.theta * e - mats.W @ bmv(mats.invMfactors, mats.W.T @ e))
+    B = np.array(B).T
+    npairs = len(X) - 1
+    Sk = [list(map(float, X[k + 1] - X[k])) for k in range(npairs)]
+    Yk = [list(map(float, G[k + 1] - G[k])) for k in range(npairs)]
+    Bd, theta = dense_B(n, Sk, Yk)
+    s, y = np.array(Sk[-1]), np.array(Yk[-1])
+    return dict(B=B.tolist(), B_dense=Bd.tolist(), theta=float(mats.theta), theta_ref=float(y.dot(y) / s.dot(y)),
+                npairs=npairs, eig_min=float(np.linalg.eigvalsh((B + B.T) / 2).min()),
+                secant_res=float(np.abs(B @ s - y).max()), asym=float(np.abs(B - B.T).max()))
+
+
+@register("matstep")
+def run_matstep(c):
+    """One real update_lbfgs_matrices from a given memory state."""
+    from lbfgsb.bfgsmats import LBFGSB_MATRICES, update_lbfgs_matrices
+    n = c["n"]
+    Xl = [np.array(v, dtype=float) for v in c["X"]]
+    Gl = [np.array(v, dtype=float) for v in c["G"]]
+    X, G = deque(Xl), deque(Gl)
+    mats = LBFGSB_MATRICES(n)
+    before = {f: getattr(mats, f) for f in mats.__slots__}
+    xk, gk = np.array(c["xk"], dtype=float), np.array(c["gk"], dtype=float)
+    ret = update_lbfgs_matrices(xk, gk, X, G, c["maxcor"], mats, False, c.get("eps", 2.2e-16))
+    s, y = xk - Xl[-1], gk - Gl[-1]
+    spec_accept = bool(s.dot(y) > c.get("eps", 2.2e-16) * y.dot(y))
+    appended = len(X) > 0 and X[-1] is xk and G[-1] is gk
+    unchanged = len(X) == len(Xl) and all(a is b for a, b in zip(X, Xl)) and all(a is b for a, b in zip(G, Gl))
+    mats_unchanged = all(getattr(ret, f) is before[f] for f in mats.__slots__)
+    keep = len(X) - 1 if appended else len(X)
+    survivors_ok = all(a is b for a, b in zip(list(X)[:keep], Xl[len(Xl) - keep:])) if keep else True
+    pairs_ok = all(bool((X[k + 1] - X[k]).dot(G[k + 1] - G[k]) > c.get("eps", 2.2e-16) * (G[k + 1] - G[k]).dot(G[k + 1] - G[k]))
+                   for k in range(len(X) - 1))
+    out = dict(spec_accept=spec_accept, appended=bool(appended), unchanged=bool(unchanged), mats_unchanged=bool(mats_unchanged),
+               len_after=len(X), len_G_after=len(G), survivors_ok=bool(survivors_ok), pairs_ok=bool(pairs_ok), same_object=ret is mats)
+    if appended:
+        out["theta"] = float(ret.theta)
+        out["theta_ref"] = float(y.dot(y) / s.dot(y))
+        out["S"] = np.asarray(ret.S).tolist()
+        out["S_ref"] = np.diff(np.array(X), axis=0).T.tolist()
+        out["Y"] = np.asarray(ret.Y).tolist()
+        out["Y_ref"] = np.diff(np.array(G), axis=0).T.tolist()
+    return out
+
+
+def _richardson_grad(f, x):
+    """6th-order central differences with Richardson extrapolation."""
+    x = np.asarray(x, dtype=float)
+    g = np.zeros_like(x)
+    for i in range(x.size):
+        def cd(h):
+            e = np.zeros_like(x)
+            e[i] = h
+            return (f(x + e) - f(x - e)) / (2 * h)
+        h = 1e-2
+        T = [[cd(h / 2 ** k)] for k in range(5)]
+        for k in range(1, 5):
+            for j in range(1, k + 1):
+                T[k].append(T[k][j - 1] + (T[k][j - 1] - T[k - 1][j - 1]) / (4 ** j - 1))
+        g[i] = T[4][4]
+    return g
+
+
+@register("benchgrad")
+def run_benchgrad(c):
+    import lbfgsb
+    f, g = getattr(lbfgsb, c["name"]), getattr(lbfgsb, c["name"] + "_grad")
+    x0 = np.array(c["x"], dtype=float)
+    pts = [x0] + [x0 + d for d in (0.137, -0.211, 0.0613)]
+    out = []
+    for x in pts:
+        with np.errstate(all="ignore"):
+            val = f(x.copy())
+            gr = np.asarray(g(x.copy()), dtype=float)
+            num = _richardson_grad(f, x)
+        out.append(dict(x=x.tolist(), grad=gr.tolist(), numeric=num.tolist(), scalar=bool(np.ndim(val) == 0),
+                        shape_ok=bool(gr.shape == x.shape),
+                        err=float(np.max(np.abs(gr - num) / (1 + np.abs(num)))) if gr.shape == x.shape else None))
+    return dict(points=out)
